@@ -118,6 +118,21 @@ func eval(c Case, sc schemas, dir string) hx.Result {
 		yBlock := gen.RenderYAML(c.Doc)
 		haveBlock := faithfulYAML(yBlock, j) && !c.JSONOnly
 		yFlow := append([]byte("# the same document in YAML flow style\n"), j...)
+		// further spellings of the block document: every key double-quoted, a document start marker, a
+		// directive, a leading comment (each only when it still denotes the same document)
+		type spelling struct {
+			name string
+			data []byte
+		}
+		var spellings []spelling
+		if haveBlock {
+			for _, sp := range []spelling{{"yaml-quoted-keys", gen.RenderYAMLQuotedKeys(c.Doc)}, {"yaml-document-marker", append([]byte("---\n"), yBlock...)},
+				{"yaml-directive", append([]byte("%YAML 1.1\n---\n"), yBlock...)}, {"yaml-leading-comment", append([]byte("# [comment] \"first\"\n"), yBlock...)}} {
+				if faithfulYAML(sp.data, j) {
+					spellings = append(spellings, sp)
+				}
+			}
+		}
 		jsonPath := filepath.Join(dir, "doc.json")
 		yamlPath := filepath.Join(dir, "doc.yaml")
 		_ = os.WriteFile(jsonPath, j, 0o644)
@@ -161,6 +176,11 @@ func eval(c Case, sc schemas, dir string) hx.Result {
 				_ = os.WriteFile(yamlPath, yBlock, 0o644)
 				eps = append(eps, ep{s.name + ":ValidateFile(.yaml block)", verdictOf(s.s.ValidateFile(yamlPath))})
 			}
+			for _, sp := range spellings {
+				eps = append(eps, ep{s.name + ":ValidateData(" + sp.name + ")", verdictOf(s.s.ValidateData(sp.data))})
+				_ = os.WriteFile(yamlPath, sp.data, 0o644)
+				eps = append(eps, ep{s.name + ":ValidateFile(.yaml " + sp.name + ")", verdictOf(s.s.ValidateFile(yamlPath))})
+			}
 			eps = append(eps, ep{s.name + ":ValidateReader(json)", verdictOf(s.s.ValidateReader(bytes.NewReader(j)))})
 			_, rerr := s.s.ReadAndValidate(bytes.NewReader(j))
 			eps = append(eps, ep{s.name + ":ReadAndValidate(json)", verdictOf(rerr)})
@@ -172,7 +192,11 @@ func eval(c Case, sc schemas, dir string) hx.Result {
 		}
 		for _, pre := range []string{"builtin", "external-copy"} {
 			jv := byName[pre+":ValidateData(json)"]
-			for _, y := range []string{":ValidateData(yaml-flow)", ":ValidateData(yaml-block)", ":ValidateFile(.yaml flow)", ":ValidateFile(.yaml block)"} {
+			ys := []string{":ValidateData(yaml-flow)", ":ValidateData(yaml-block)", ":ValidateFile(.yaml flow)", ":ValidateFile(.yaml block)"}
+			for _, sp := range spellings {
+				ys = append(ys, ":ValidateData("+sp.name+")", ":ValidateFile(.yaml "+sp.name+")")
+			}
+			for _, y := range ys {
 				if yv, ok := byName[pre+y]; ok && yv != jv {
 					kind := "annotations-well-formed"
 					if malformed {
@@ -210,6 +234,9 @@ func eval(c Case, sc schemas, dir string) hx.Result {
 			}
 			if haveBlock {
 				checks["ValidateData(yaml-block)"] = s.ValidateData(yBlock)
+			}
+			for _, sp := range spellings {
+				checks["ValidateData("+sp.name+")"] = s.ValidateData(sp.data)
 			}
 			if c.typed != nil {
 				checks["Validate"] = s.Validate(c.typed)
